@@ -258,10 +258,16 @@ class JSONSerialization(Serialization):
             if not allowed_types:
                 # no objects declared (such a Selector takes whatever it is
                 # given): nothing to say - an empty anyOf is not a schema
+                if safe is True:
+                    raise UnsafeserializableException(
+                        'Selector without objects cannot be guaranteed to '
+                        'be safe for serialization')
                 return {}
             schema = {'anyOf': allowed_types}
             schema['enum'] = p.objects
             return schema
+        except UnsafeserializableException:
+            raise
         except Exception:
             if safe is True:
                 msg = ('ObjectSelector cannot be guaranteed to be safe for '
@@ -277,10 +283,16 @@ class JSONSerialization(Serialization):
             if not allowed_types:
                 # no objects declared (such a Selector takes whatever it is
                 # given): nothing to say - an empty anyOf is not a schema
+                if safe is True:
+                    raise UnsafeserializableException(
+                        'Selector without objects cannot be guaranteed to '
+                        'be safe for serialization')
                 return {}
             schema = {'anyOf': allowed_types}
             schema['enum'] = p.objects
             return schema
+        except UnsafeserializableException:
+            raise
         except Exception:
             if safe is True:
                 msg = ('Selector cannot be guaranteed to be safe for '
@@ -290,10 +302,12 @@ class JSONSerialization(Serialization):
 
     @classmethod
     def listselector_schema(cls, p, safe=False):
-        if p.objects is None:
+        if not p.objects:
+            # (no objects declared: such a ListSelector takes any list)
             if safe is True:
                 msg = ('ListSelector cannot be guaranteed to be safe for '
                        'serialization as allowed objects unspecified')
+                raise UnsafeserializableException(msg)
             return {'type': 'array'}
         for obj in p.objects:
             if type(obj) not in cls.json_schema_literal_types:
